@@ -13,7 +13,7 @@
 (*   form   "word" | "list" | "junk" (list whose tokens are not a meta     *)
 (*          list) | "nv"                                                   *)
 (*   lit    for nv / nested_lit: "bool" "str" "char" "int" "float"         *)
-(*          "bytestr" (literals) | "path" "binary" (other expressions)     *)
+(*          "bytestr" (literals) | "path" "binary" "paren" (expressions)   *)
 (*   groups number of invisible groups around the value (0..2)             *)
 (* Probe mode: what an overridden hook returns - "ok", "err" (an error     *)
 (* without span) or "err_spanned" (an error carrying its own span).        *)
@@ -24,7 +24,7 @@ CONSTANTS EMIT
 
 Hooks == {"word", "list", "bool", "string", "char", "value", "expr"}
 Lits == {"bool", "str", "char", "int", "float", "bytestr"}
-Exprs == {"path", "binary"}
+Exprs == {"path", "binary", "paren"}        \* paren: a literal or an expression inside written parentheses - an expression, not a literal
 Items ==
   {[pos |-> "meta", form |-> f, lit |-> "", groups |-> 0] : f \in {"word", "list", "junk"}}
   \cup {[pos |-> "meta", form |-> "nv", lit |-> l, groups |-> g] : l \in Lits \cup Exprs, g \in 0..2}
